@@ -14,13 +14,13 @@ open CprocVerif.LowerArith CprocVerif.LowerMach CprocVerif.LowerMem
 /-- The call `f(ρ)` from the initial state of an IL program `p` that contains the emitted functions of the
     C program `P` (`P = []`: a single function, `f` itself) and has room for `d` nested activations. -/
 theorem run_entry (cs : Bool) (sid : Nat) (f : CSem2.Func) (ρ : List Int) (v : Int)
-    (hwt : CSem2.WT f) (henv : EnvOK cs f.params ρ)
+    (hwt : CSem2.WT f) (hpw : f.pwin = []) (henv : EnvOK cs f.params ρ)
     (P : List CSem2.Func) (p : Prog) (ext : Qbe.Ext) (K d : Nat)
     (hfuncs : ∀ fn g', lookup P fn = some g' →
       ∃ sid', p.funcs[fn]? = some (FuncInfo.of (Lower2.emitFunc cs sid' g')))
     (hP : ∀ fn g', lookup P fn = some g' →
       CSem2.WT g' ∧ callsOK P g'.body = true ∧ g'.vtys.length + g'.extra ≤ K)
-    (hfrag : frag P f.cnts f.body = true) (hK : f.vtys.length + f.extra ≤ K)
+    (hfrag : frag P f.cnts (funcW f) f.body = true) (hK : f.vtys.length + f.extra ≤ K)
     (hfun : p.funcs[f.name]? = some (FuncInfo.of (Lower2.emitFunc cs sid f)))
     (hstack : p.initMem.stack = #[]) (hsp : p.initMem.sp = stackTop)
     (hroom : Room K (d + 1) p.initMem)
@@ -66,8 +66,9 @@ theorem run_entry (cs : Bool) (sid : Nat) (f : CSem2.Func) (ρ : List Int) (v : 
     · intro i hi; simp [hstack] at hi
     · rw [hsp, stackTop_val, stackLimit_val]; decide
     · simp [hstack]
-  obtain ⟨n, st, r, hreach, hstep, hrr, _⟩ := sim_func cs sid f ρ v hwt henv P p ext K d p.initMem hfuncs hP
-    hfrag hK hmem hroom (by rw [hsp]; exact Nat.le_refl _) [] #[] env0 hargs fuelC
+  obtain ⟨n, st, r, hreach, hstep, hrr, _⟩ := sim_func cs sid f ρ [] v hwt henv P p ext K d p.initMem hfuncs hP
+    hfrag hK hmem hroom (by rw [hsp]; exact Nat.le_refl _) [] #[] env0 (fun k t v' _ => hargs k t v')
+    (by intro j t w h; rw [hpw] at h; simp at h) fuelC
     (fun T hTP hTd => sim_stmt T fuelC (hfuel.elim (fun h => Or.inl (hTP.trans h)) (fun h => Or.inr (by omega))))
     hex
   refine ⟨n + 1, r, hrr, ?_⟩
@@ -79,7 +80,7 @@ theorem run_entry (cs : Bool) (sid : Nat) (f : CSem2.Func) (ρ : List Int) (v : 
 
 /-- a single function: `lower2_correct` of `Props/C01.lean` -/
 theorem lower2_correct_prog (cs : Bool) (startid : Nat) (f : CSem2.Func) (ρ : List Int) (v : Int)
-    (hwt : CSem2.WT f) (henv : EnvOK cs f.params ρ)
+    (hwt : CSem2.WT f) (hpw : f.pwin = []) (henv : EnvOK cs f.params ρ)
     (hsmall : f.params.length + f.locals.length ≤ 1000000)
     (fuelC : Nat) (hex : exec cs [] fuelC (initStore f ρ) f.body = some (.ret v))
     (p : Prog) (ext : Qbe.Ext)
@@ -92,10 +93,10 @@ theorem lower2_correct_prog (cs : Bool) (startid : Nat) (f : CSem2.Func) (ρ : L
   have hextra : f.extra ≤ 1000000 := by
     have h := hwt
     simp only [CSem2.WT, CSem2.Func.wt, Bool.and_eq_true, decide_eq_true_eq] at h
-    exact h.2
-  refine run_entry cs startid f ρ v hwt henv [] p ext (f.vtys.length + f.extra) 0
+    exact h.1.1.1.1.1.2
+  refine run_entry cs startid f ρ v hwt hpw henv [] p ext (f.vtys.length + f.extra) 0
     (by intro fn g h; simp [lookup] at h) (by intro fn g h; simp [lookup] at h)
-    (frag_nil _ _ (wt_arrsOK hwt)) (Nat.le_refl _)
+    (frag_nil _ _ (wt_arrsOK hwt) (wt_ptrsOK hwt)) (Nat.le_refl _)
     hfun hstack hsp ?_ fuelC (Or.inl rfl) hex
   constructor
   · rw [hsp, stackTop_val, stackLimit_val]; omega
